@@ -345,6 +345,9 @@ def run(rep, tier):
     c01.rule_labels(c01._Rename(rep, {'R4': 'R7'}), idx)
     # R8: an actual stored through a stale breg lands anywhere in memory (import of C01-R14)
     c01.rule_call_registers(c01._Rename(rep, {'R14': 'R8'}), idx)
+    # R9: an evaluation the source guarded with `and` / `or` (typically a subscript) must stay guarded (import of C07-R10)
+    from . import c07
+    c07.rule_rewrite_evaluations(c01._Rename(rep, {'R10': 'R9'}), idx)
 
 
 def optimise(idx, X, items):
